@@ -1840,3 +1840,8 @@ M("sc2", "fire", ["C04"], "treeinfo Tree.serialize no longer creates its section
         parser.add_section(self._section)
         parser.set(self._section, "arch", self.arch)''', '''        self.validate()
         parser.set(self._section, "arch", self.arch)'''))
+M("lv1", "fire", ["C05"], "pre-productmd tree reader no longer puts the tree's own arch among its platforms",
+  (TI, '''        self.arch = parser.get("general", "arch")
+        self.platforms.add(self.arch)
+''', '''        self.arch = parser.get("general", "arch")
+'''))
